@@ -36,6 +36,7 @@ structure Inv (s : G) : Prop where
 section entry
 variable {m : Bool} {E : Entry}
 
+set_option hygiene false in
 macro "ent_tac" : tactic =>
   `(tactic| (
     revert m E
@@ -43,7 +44,8 @@ macro "ent_tac" : tactic =>
     obtain ⟨key, refs, value, err, wlocked, viaCtor, ctor, failing, waiters, lsWaiters,
       holders, deadRefs, del2, del3, destructed, ctorRuns, refReaders⟩ := E
     simp only [EntInv]
-    cases err <;> cases wlocked <;> cases viaCtor <;> cases m <;> simp <;> omega))
+    cases err <;> cases wlocked <;> cases viaCtor <;> cases m <;> simp <;> intros <;> (try simp_all) 
+    all_goals omega))
 
 theorem ent_holder_mapped (h : EntInv m E) (hh : 0 < E.holders) :
     m = true ∧ E.err = false ∧ E.wlocked = false ∧ 1 ≤ E.refs := by
@@ -57,12 +59,12 @@ theorem ent_failing_facts (h : EntInv m E) (hh : 0 < E.failing) :
     m = true ∧ E.err = true ∧ E.wlocked = true ∧ E.failing = 1 := by
   ent_tac
 
-theorem ent_lookup_ln (h : EntInv true E) :
-    EntInv true { E with refs := E.refs + 1, waiters := E.waiters + 1 } := by
+theorem ent_lookup_ln (h : EntInv m E) (hm : m = true) :
+    EntInv m { E with refs := E.refs + 1, waiters := E.waiters + 1 } := by
   ent_tac
 
-theorem ent_lookup_ls (h : EntInv true E) :
-    EntInv true { E with refs := E.refs + 1, lsWaiters := E.lsWaiters + 1 } := by
+theorem ent_lookup_ls (h : EntInv m E) (hm : m = true) :
+    EntInv m { E with refs := E.refs + 1, lsWaiters := E.lsWaiters + 1 } := by
   ent_tac
 
 theorem ent_newCtor (k : Nat) : EntInv true (newCtorEntry k) := by
